@@ -105,9 +105,14 @@ pub fn file_of_spec(spec: &str) -> Vec<u8> {
     }
 }
 
-/// Sockets of finished cases are parked here until the process ends, so that the kernel never hands one of
+/// Sockets of finished cases are parked here (the last 1500 of them), so that the kernel does not hand one of
 /// their ports to a later case while a straggling worker of the earlier case may still send to it.
 pub fn retire_socket(s: std::net::UdpSocket) {
-    static GRAVEYARD: std::sync::Mutex<Vec<std::net::UdpSocket>> = std::sync::Mutex::new(Vec::new());
-    GRAVEYARD.lock().unwrap().push(s);
+    static GRAVEYARD: std::sync::Mutex<std::collections::VecDeque<std::net::UdpSocket>> =
+        std::sync::Mutex::new(std::collections::VecDeque::new());
+    let mut g = GRAVEYARD.lock().unwrap();
+    g.push_back(s);
+    if g.len() > 1500 {
+        g.pop_front();
+    }
 }
